@@ -534,10 +534,129 @@ def run(tier, logdir):
                         "bounds": "every (pos, Option<len>) in u64 x Option<u64>; getters uninterpreted", "wall_s": round(tsol, 2), "solver": {"z3+cvc5": "QF_UFLIRA equivalence"}})
         if extra:
             assumptions.append("keys present in format_state but not in the documented list (not judged): " + ", ".join(sorted(extra)))
+        queries += tracker_rules(mir, root)
         enc = ["style::ProgressStyle::format_state (key dispatch arms, data flow to the formatter)"]
     except (M.Unsupported, KeyError, IndexError, AttributeError, ValueError) as e:
         queries.append({"name": "MIR key-dispatch analysis", "verdict": "BROKEN", "why": "%s: %s" % (type(e).__name__, e), "wall_s": 0})
     return {"queries": queries, "assumptions": assumptions, "encodes": enc, "bounds": ["engine M (key dispatch): all documented keys, every state"]}
+
+
+TRACKER_TEST = r'''
+#[cfg(test)]
+mod verif_c11_trackers {
+    use crate::style::ProgressTracker;
+    use crate::{ProgressBar, ProgressState, ProgressStyle};
+    use std::sync::atomic::{AtomicUsize, Ordering};
+    use std::sync::Arc;
+    use std::time::Instant;
+
+    #[derive(Clone)]
+    struct Probe(Arc<AtomicUsize>, Arc<AtomicUsize>);
+    impl ProgressTracker for Probe {
+        fn clone_box(&self) -> Box<dyn ProgressTracker> {
+            Box::new(self.clone())
+        }
+        fn tick(&mut self, _s: &ProgressState, _n: Instant) {
+            self.0.fetch_add(1, Ordering::SeqCst);
+        }
+        fn reset(&mut self, _s: &ProgressState, _n: Instant) {
+            self.1.fetch_add(1, Ordering::SeqCst);
+        }
+        fn write(&self, _s: &ProgressState, _w: &mut dyn std::fmt::Write) {}
+    }
+
+    #[test]
+    fn verif_c11_trackers_follow_the_bar() {
+        type Op = (&'static str, fn(&ProgressBar));
+        let ops: Vec<Op> = vec![
+            ("tick", |p| p.tick()),
+            ("set_length", |p| p.set_length(7)),
+            ("inc_length", |p| p.inc_length(2)),
+            ("dec_length", |p| p.dec_length(1)),
+            ("unset_length", |p| p.unset_length()),
+            ("set_message", |p| p.set_message("m")),
+            ("set_prefix", |p| p.set_prefix("p")),
+        ];
+        let mut bad = Vec::new();
+        for (name, op) in ops {
+            let (t, r) = (Arc::new(AtomicUsize::new(0)), Arc::new(AtomicUsize::new(0)));
+            let pb = ProgressBar::hidden();
+            pb.set_style(ProgressStyle::with_template("{probe}").unwrap().with_key("probe", Probe(t.clone(), r.clone())));
+            let before = t.load(Ordering::SeqCst);
+            op(&pb);
+            let d = t.load(Ordering::SeqCst) - before;
+            if d != 1 {
+                bad.push(format!("{name}: tracker ticked {d} times"));
+            }
+            let rb = r.load(Ordering::SeqCst);
+            pb.reset();
+            if r.load(Ordering::SeqCst) - rb != 1 {
+                bad.push(format!("reset after {name}: tracker reset {} times", r.load(Ordering::SeqCst) - rb));
+            }
+        }
+        if bad.is_empty() {
+            println!("TRACKERS follow");
+        } else {
+            println!("TRACKERS differ {}", bad.join(" | "));
+        }
+    }
+}
+'''
+
+
+def native_trackers(root):
+    try:
+        rc, out = native_test(root, "lib.rs", TRACKER_TEST, "verif_c11_trackers_follow_the_bar", timeout=900)
+    except Exception as e:  # noqa
+        return None, repr(e)
+    m = re.search(r"TRACKERS (differ|follow)(.*)", out)
+    if not m:
+        pm = re.search(r"(error[^\n]*\n[^\n]*|panicked at [^\n]*\n[^\n]*)", out)
+        return None, (pm.group(0) if pm else out[-300:])
+    return (m.group(1) == "differ"), m.group(0)[:400]
+
+
+def tracker_rules(mir, root):
+    """custom keys are ticked and reset together with the bar"""
+    import sympath as S
+    out = []
+    problems = []
+    nfn = 0
+    try:
+        # T1: update_estimate_and_draw ticks every tracker (a loop over format_map.values_mut()) before it draws
+        fn = mir.find("update_estimate_and_draw", self_ty="&mut BarState")
+        ex = S.Exec(fn)
+        paths = ex.run(want_call=r"BarState::draw$")
+        cyc = S.in_cycle_blocks(fn)
+        tick_in_loop = any(re.search(r"ProgressTracker>::tick\(", s_) for bb in cyc for s_ in fn.blocks.get(bb, []))
+        over_map = any("values_mut" in e[1] for p in paths for e in p.events if e[0] == "call")
+        if not paths or not tick_in_loop or not over_map:
+            problems.append("update_estimate_and_draw does not tick the trackers of format_map in a loop before drawing")
+        # every path to the draw that entered the loop body ticked with (&self.state, now)
+        # T2: every updating method reaches update_estimate_and_draw on every path
+        for meth in ("tick", "set_length", "inc_length", "dec_length", "unset_length"):
+            f = mir.find(meth, self_ty="&mut BarState")
+            nfn += 1
+            rets = S.Exec(f).run(want_return=True)
+            for p in rets:
+                if not any(e[1].endswith("BarState::update_estimate_and_draw") for e in p.events if e[0] == "call"):
+                    problems.append("BarState::%s has a path that does not reach update_estimate_and_draw" % meth)
+                    break
+        # T3: reset resets every tracker
+        f = mir.find("reset", self_ty="&mut BarState")
+        cyc = S.in_cycle_blocks(f)
+        if not any(re.search(r"ProgressTracker>::reset\(", s_) for bb in cyc for s_ in f.blocks.get(bb, [])):
+            problems.append("BarState::reset does not reset the trackers of format_map in a loop")
+    except M.Unsupported as e:
+        return [{"name": "custom keys follow the bar (MIR structure)", "verdict": "BROKEN", "why": str(e), "wall_s": 0}]
+    label = "custom keys: update_estimate_and_draw ticks every tracker before drawing, %d updating methods reach it on every path, reset() resets every tracker" % nfn
+    if not problems:
+        return [{"name": label, "verdict": "PASS", "bounds": "every acyclic MIR path of the listed BarState methods", "wall_s": 0}]
+    differs, detail = native_trackers(root)
+    if differs is True:
+        return [{"name": "custom keys are not ticked / reset together with the bar", "verdict": "FAIL", "why": "%s; native run: %s" % (problems[0], detail), "replayed": True,
+                 "replay_path": _art("trackers", {"property": "C11", "key": "custom", "what": problems[0], "native": detail}), "wall_s": 0}]
+    return [{"name": label, "verdict": "INCONCLUSIVE", "why": "%s; the native run %s" % (problems[0], "found every tracker ticked once per update and reset once per reset" if differs is False else "could not be run: " + str(detail)[:200]), "wall_s": 0}]
 
 
 def _art(tag, d):
@@ -553,6 +672,10 @@ def _art(tag, d):
 def replay(path):
     d = json.load(open(path))
     root = common.scratch_root()
+    if "native" in d:
+        differs, detail = native_trackers(root)
+        say(detail)
+        return 2 if differs is None else (1 if differs else 0)
     if "pos" in d:
         differs, detail = native_replay(root, d["key"], d["pos"], d.get("len"))
         say("{%s} pos=%s len=%s: %s" % (d["key"], d["pos"], d.get("len"), detail))
